@@ -28,7 +28,7 @@ func exec(op string) vlib.Res {
 	switch f[0] {
 	case "rw", "wg", "res", "burst", "eff", "proc":
 		return execLocal(op)
-	case "inl", "bw", "zl", "gl":
+	case "inl", "bw", "zl", "gl", "tcpclass":
 		return execLocal(op)
 	case "dedup", "sys", "ing":
 		if os.Getenv("C11_NOCHILD") != "" {
@@ -57,6 +57,8 @@ func execLocal(op string) vlib.Res {
 		return execRes(f)
 	case "burst":
 		return execBurst(f)
+	case "tcpclass":
+		return execTCPClass(f)
 	case "zl":
 		return execZL(f)
 	case "gl":
@@ -94,12 +96,15 @@ func facts() map[string]any {
 	c := cache.New(cfg)
 	defer c.Stop()
 	srv := server.New(cfg) // cfg.QueryTimeout left zero: the code's own default
+	classBad, smallFrame := tcpClassFacts()
 	return map[string]any{
 		"regroup_limit":            cache.VerifC11RegroupLimit(),
 		"wg_timeout_ms":            int(cache.VerifC11DedupTimeout(c) / time.Millisecond),
 		"query_timeout_default_ms": int(server.VerifC11QueryTimeout(srv) / time.Millisecond),
 		"rw_table":                 rwTable(),
 		"tcp_write_wait_ms":        tcpWriteWaitMs(),
+		"tcp_class_mismatches":     classBad,
+		"tcp_small_frame":          smallFrame,
 	}
 }
 
